@@ -5,6 +5,7 @@ pub mod c04;
 pub mod c05;
 pub mod c08;
 pub mod c09;
+pub mod c10;
 pub mod c11;
 pub mod c12;
 pub mod c14;
@@ -28,6 +29,7 @@ pub fn monitors_for(prop: &str) -> Vec<Box<dyn Monitor>> {
         "C05" => vec![Box::new(c05::C05)],
         "C08" => vec![Box::new(c08::C08)],
         "C09" => vec![Box::new(c09::C09::default())],
+        "C10" => vec![Box::new(c10::C10::default())],
         "C11" => vec![Box::new(c11::C11)],
         "C12" => vec![Box::new(c12::C12)],
         "C14" => vec![Box::new(c14::C14::default())],
